@@ -1,6 +1,7 @@
 import CffiVerif.Model.ConstExprProto
 import CffiVerif.Model.Enum
 import CffiVerif.Spec.GccEnum
+import CffiVerif.Spec.CConstExprNoWrap
 open CffiVerif CffiVerif.Proto CffiVerif.ConstExpr CffiVerif.ConstExprProto
 
 /-!
@@ -93,7 +94,8 @@ def step (s : DSt) : List String → DSt × String
         | some tv => { s1 with cenv := (n, tv) :: s1.cenv }
         | none => s1
       let ms := match m with | none => "nomatch" | some r => showModel r
-      ({ s with st := s2 }, s!"ok model={ms} spec={showSpec sp}")
+      let noW := match ce with | some c => CConstExpr.noWrap s.st.c c | none => false
+      ({ s with st := s2 }, s!"ok model={ms} spec={showSpec sp} nowrap={if noW then 1 else 0}")
   | "enum" :: ws =>
     match (splitItems ws).mapM parseItem with
     | none => (s, "bad-op")
